@@ -253,6 +253,22 @@ def mk_callstate(rng, op, m, n, what):
     return c
 
 
+def mk_faint(rng, op, m, n):
+    """a faint frame (total 1e-9 .. 1e-20) on which np.abs folds negative lobes up, so that the renormalisation has
+    work to do: two point sources under an oblique smear, or jitter well below one sample"""
+    c = {'op': op, 'img': [[0] * n for _ in range(m)], 'kind': 'faint'}
+    c['img'][rng.randrange(m)][rng.randrange(n)] = rng.randint(1, 9)
+    c['img'][rng.randrange(m)][rng.randrange(n)] += rng.randint(1, 9)
+    ps, os_ = rng.choice(UNITS)
+    e = rng.choice(['3', '5/2', '7/2']) if op == 'smear' else rng.choice(['1/4', '1/3', '1/2'])
+    c['ext'], c['ps'], c['os'] = str(Fraction(e) * Fraction(ps) / Fraction(os_)), ps, os_
+    if op == 'smear':
+        c['angle'] = rng.choice(['30', '17', '-60', '222', '57/2'])
+    c['scale2'] = rng.choice([-30, -36, -43, -50, -60, -66])
+    c['shifts'] = [[rng.randrange(m), rng.randrange(n)]]
+    return c
+
+
 def mk_zero(rng, op, m, n):
     """the all-zero frame is a non-negative image: every blur returns the all-zero frame (fix a520356)"""
     c = mk_case(rng, op, m, n, 'quick', 0, kind='background', variants=False)
@@ -382,6 +398,8 @@ def generate(rng, tier):
         for what in CALLSTATES:
             for op in rng.sample(ops, 2):
                 out.append(mk_callstate(rng, op, *rng.choice(small), what))
+        for op in ('smear', 'smear', 'jitter', 'jitter'):
+            out.append(mk_faint(rng, op, *rng.choice(small[:6])))
     else:
         shapes = [s for s in SHAPES_ALL if cost(*s) <= 60000]
         ncase, allshifts = 1200, 25
@@ -419,6 +437,9 @@ def generate(rng, tier):
             for op in ops:
                 for _ in range(3):
                     out.append(mk_callstate(rng, op, *rng.choice(small), what))
+        for op in ('smear', 'jitter'):
+            for _ in range(15):
+                out.append(mk_faint(rng, op, *rng.choice(small[:6] + [(7, 8), (13, 2)])))
         out.append(mk_big(rng, 'jitter', (2049, 2051)))      # > 2**22 samples, no round block size divides it
         for shape in BIG_SHAPES[:3]:
             out.append(mk_big(rng, 'pixel', shape))
